@@ -47,8 +47,8 @@ RwCopy    == Rw /\ Copy(cur, NextId) /\ cur' = NextId
 RwPickle  == Rw /\ PickleRoundTrip(cur, NextId) /\ cur' = NextId
 RwJoin    == Rw /\ \E b \in Live \ {cur} : Join(cur, b, NextId) /\ cur' = NextId
 RwJoinNew == Rw /\ \E pd \in PartnerDescs : LET q == PartnerObj(pd) IN
-                /\ ObjOK(q) /\ JoinDefined(O, q)
-                /\ Step("join", {NextId, NextId + 1}, (NextId :> q) @@ ((NextId + 1) :> JoinObj(O, q)) @@ objs)
+                /\ ObjOK(q) /\ JoinDefined(O, q, NextId + 1)
+                /\ Step("join", {NextId, NextId + 1}, (NextId :> q) @@ ((NextId + 1) :> JoinObj(O, q, NextId + 1)) @@ objs)
                 /\ cur' = NextId + 1
 RwRename  == Rw /\ \E r \in RenChoices(O) : UpdateRenames(cur, r) /\ cur' = cur
 RwScope   == Rw /\ \E sel \in {<<AllSel, AllSel>>, <<AllSel, NoneSel>>, <<NoneSel, AllSel>>} :
@@ -93,13 +93,13 @@ LawsCall(o) == LET cd == CurDesc(o)  cm == CurMap(o) IN
                   /\ \A out \in AllOutputs(o.sem) :
                         LET v == Eval(o.sem, kw, out) IN
                         /\ Eval(cd, ckw, cm[out]) = RenTerm(v, cm)              \* LawRenameCall
-                        /\ EvalObs(o, cm[out], ckw, "call") = v                 \* LawObsCall
+                        /\ EvalObs(o, cm[out], ckw, "call") = RenTerm(v, o.heads) \* LawObsCall
                   /\ LawSplit(o, kw)
 LawsMap(o)  == ValidMapRequest(o.sem, MapInp(o.sem)) => (LawRenameMap(o, MapInp(o.sem)) /\ LawDenoteE(o.sem, MapInp(o.sem)))
 LawsAxis(o) == \A p \in FreeRoots(o.sem) : AddAxisWellFormed(o, p, "k") =>
                   LawAddAxis(o.sem, p, "k", MapInp(o.sem), <<Atom("@v0"), Atom("@v1")>>)
-LawsJoin(a) == \A b \in Live \ {a} : JoinDefined(objs[a], objs[b]) =>
-                  LawJoin(objs[a], objs[b], KwOfSet(FreeRoots(objs[a].sem), KV))
+LawsJoin(a) == \A b \in Live \ {a} : JoinDefined(objs[a], objs[b], 99) =>
+                  LawJoin(objs[a], objs[b], 99, KwOfSet(FreeRoots(objs[a].sem), KV))
 
 PropNoAliasing == NoAliasing
 InvStoreOK    == \A a \in last.tgt \cap Live : ObjOK(objs[a])
